@@ -12,7 +12,7 @@ from ..core import HarnessError
 from .. import data as D
 from ..oracles import leaks, decode_array_dir, DecodeError
 from . import arrayhist as AH
-from .arrayhist import Viol
+from .arrayhist import Viol, Diverged
 
 
 def gen_index(rng, depth=0):
@@ -353,7 +353,7 @@ class _IState(AH._State):
         self.close_ctx()
         exc = self.call(lambda: self.darr.delete_array(self.h))
         if exc is not None:
-            raise Viol('index.delete', f'raises:{type(exc).__name__}', str(exc)[:200])
+            self.probe('final_delete_raised')      # whether delete succeeds is C16's subject; held values are still checked
         self.h = None
         self.mutated = True
         self.probe('deleted_with_values_held')
@@ -365,7 +365,12 @@ class _IState(AH._State):
         if op['op'] in ('append', 'truncate', 'iterappend'):
             self.mutated = True
         if self.h is not None:
-            self.observe(self.h, 'index.live')
+            try:
+                self.observe(self.h, 'index.live')
+            except Viol as v:
+                # the state after an append/truncate of the base history is C03's subject: without an agreed state
+                # there is nothing to judge index expressions against
+                raise Diverged(f'{v.oracle}:{v.signature}')
 
     mutated = False
 
